@@ -25,7 +25,12 @@ var C13BaseNames = []string{"Default", "Cache", "Router", "Merge(Cache,Router)",
 // 4 Prometheus, 5 Prometheus∘MaxSubscriptions∘Logging, 6.. every provided middleware singly.
 var C13WrapNames = []string{"none", "MaxSubscriptions(2)", "RecvUnique(2)+SendUnique(2)", "NIP11(all limits)", "Prometheus", "Prometheus+MaxSubscriptions+Logging",
 	"EventCreatedAt", "MaxReqFilters", "MaxLimit", "MaxSubIDLength", "MaxEventTags", "MaxContentLength", "CreatedAtLowerLimit", "CreatedAtUpperLimit",
-	"RecvEventUniqueFilter", "SendEventUniqueFilter", "RecvEventAllowFilter", "RecvEventDenyFilter", "Logging"}
+	"RecvEventUniqueFilter", "SendEventUniqueFilter", "RecvEventAllowFilter", "RecvEventDenyFilter", "Logging",
+	// wrappers that REFUSE part of the history (the reply comes from the middleware itself)
+	"MaxContentLength(1): refuses the EVENT", "MaxSubIDLength(1): refuses REQ, COUNT (and CLOSE)", "RecvEventDenyFilter(kind 1): refuses the EVENT", "MaxSubIDLength(1)+MaxContentLength(1): refuses everything"}
+
+// C13FirstRefusingWrap is the index of the first refusing wrapper.
+const C13FirstRefusingWrap = 19
 
 type c13Env struct {
 	routers []*mocrelay.RouterHandler
@@ -128,6 +133,14 @@ func (env *c13Env) wrap(i int, hd mocrelay.Handler) mocrelay.Handler {
 		return mocrelay.NewRecvEventDenyFilterMiddleware(k7)(hd)
 	case 18:
 		return mocrelay.NewLoggingMiddleware(discard)(hd)
+	case 19:
+		return mocrelay.NewMaxContentLengthMiddleware(1)(hd)
+	case 20:
+		return mocrelay.NewMaxSubIDLengthMiddleware(1)(hd)
+	case 21:
+		return mocrelay.NewRecvEventDenyFilterMiddleware(k1)(hd)
+	case 22:
+		return mocrelay.NewMaxSubIDLengthMiddleware(1)(mocrelay.NewMaxContentLengthMiddleware(1)(hd))
 	}
 	panic("bad wrap")
 }
@@ -163,12 +176,18 @@ func SessionEnd(h *vsched.H) {
 	ev := func(id byte, kind int64) *mocrelay.Event {
 		e := Ev(id, '1', kind, now)
 		e.Content = "c"
+		if wrapI >= C13FirstRefusingWrap {
+			e.Content = "cc" // above the refusing wrappers' content limit
+		}
 		return e
 	}
 	bg := context.Background()
 	S := NewConn(h, "S", bg, hd)
 	P := NewConn(h, "P", bg, hd)
 	script := []mocrelay.ClientMsg{ReqMsg("s"), EventMsg(ev('a', 1)), CountMsg("c"), CloseMsg("s"), ReqMsg("t")}
+	if wrapI >= C13FirstRefusingWrap { // subscription ids above the refusing wrappers' length limit
+		script = []mocrelay.ClientMsg{ReqMsg("ss"), EventMsg(ev('a', 1)), CountMsg("cc"), CloseMsg("ss"), ReqMsg("tt")}
+	}
 	S.WriterDone = make(chan struct{})
 	go func() { S.Write(script...); close(S.WriterDone) }()
 	go P.Write(EventMsg(ev('b', 1)), EventMsg(ev('c', 7)))
